@@ -56,12 +56,14 @@ func jsChanges(l []cchange) []any {
 }
 
 type collRun struct {
-	bp        bool
-	sent, got []cchange
-	converged bool
-	slow      bool
-	maxWrite  time.Duration
-	rounds    int
+	updatesOnly bool
+	scenario    string // "" single subscriber; otherwise the multi-subscriber scenario and this subscriber's role
+	bp          bool
+	sent, got   []cchange
+	converged   bool
+	slow        bool
+	maxWrite    time.Duration
+	rounds      int
 }
 
 // one random valid write on the collection; returns the event the store must have published
@@ -72,6 +74,11 @@ func collWrite(c *resource.Collection, s *sstate, r *vcoq.Rand, nids int64) (cch
 	if w == 'd' && r.Chance(40) {
 		w = 'u'
 	}
+	return collWriteAt(c, s, id, w)
+}
+
+// the write `w` ('a' add, 'u' update, 'd' delete; must be valid in state s) on id
+func collWriteAt(c *resource.Collection, s *sstate, id int64, w byte) (cchange, time.Duration, error) {
 	ev := s.emit(id, w).C
 	ev.Time = 0
 	dt, err, blocked := timed(func() error {
@@ -121,16 +128,16 @@ func canonAPI(c *resource.CollectionChange) cchange {
 
 // lossy: the subscriber sleeps during each burst, then reads until its folded view equals the
 // committed view (or the budget runs out)
-func runCollLossy(r *vcoq.Rand, rounds, burst int, nids int64) (collRun, error) {
-	run := collRun{converged: true, rounds: rounds}
+func runCollLossy(r *vcoq.Rand, rounds, burst int, nids int64, updatesOnly bool) (collRun, error) {
+	run := collRun{converged: true, rounds: rounds, updatesOnly: updatesOnly}
 	c := resource.NewCollection()
 	ctx, cancel := context.WithCancel(context.Background())
 	defer cancel()
-	ch := c.Pull(ctx)
+	ch := c.Pull(ctx, resource.WithUpdatesOnly(updatesOnly))
 	s := newSState()
 	committed, seen := map[int64]int64{}, map[int64]int64{}
 	for round := 0; round < rounds; round++ {
-		n := r.Range(1, burst)
+		n := burstSize(r, burst)
 		for i := 0; i < n; i++ {
 			ev, dt, err := collWrite(c, s, r, nids)
 			if err == errBlocked {
@@ -198,12 +205,12 @@ func runCollLossy(r *vcoq.Rand, rounds, burst int, nids int64) (collRun, error) 
 }
 
 // backpressure: a subscriber that keeps receiving gets every event
-func runCollBackpressure(r *vcoq.Rand, n int, nids int64) (collRun, error) {
-	run := collRun{bp: true, converged: true}
+func runCollBackpressure(r *vcoq.Rand, n int, nids int64, updatesOnly bool) (collRun, error) {
+	run := collRun{bp: true, converged: true, updatesOnly: updatesOnly}
 	c := resource.NewCollection()
 	ctx, cancel := context.WithCancel(context.Background())
 	defer cancel()
-	ch := c.Pull(ctx, resource.WithBackpressure(true))
+	ch := c.Pull(ctx, resource.WithBackpressure(true), resource.WithUpdatesOnly(updatesOnly))
 	var mu sync.Mutex
 	var got []cchange
 	done := make(chan struct{})
@@ -255,28 +262,41 @@ func runCollBackpressure(r *vcoq.Rand, n int, nids int64) (collRun, error) {
 	return run, nil
 }
 
-type valRun struct {
-	bp        bool
-	sent, got []int64
-	converged bool
-	slow      bool
+// several writes while the subscriber is stalled (the Pull goroutine absorbs the first one, so a
+// blocking path only shows from the second write on); sometimes a single one
+func burstSize(r *vcoq.Rand, burst int) int {
+	if r.Chance(15) {
+		return 1
+	}
+	return r.Range(2, burst+1)
 }
 
-func runValueLossy(r *vcoq.Rand, rounds, burst int) (valRun, error) {
-	run := valRun{converged: true}
+type valRun struct {
+	updatesOnly bool
+	scenario    string
+	bp          bool
+	sent, got   []int64
+	converged   bool
+	slow        bool
+}
+
+func runValueLossy(r *vcoq.Rand, rounds, burst int, updatesOnly bool) (valRun, error) {
+	run := valRun{converged: true, updatesOnly: updatesOnly}
 	v := resource.NewValue(resource.WithInitialValue(tok(0)))
 	ctx, cancel := context.WithCancel(context.Background())
 	defer cancel()
-	ch := v.Pull(ctx)
-	select { // the seed
-	case <-ch:
-	case <-time.After(convergeBudget):
-		return run, fmt.Errorf("no seed value from Value.Pull")
+	ch := v.Pull(ctx, resource.WithUpdatesOnly(updatesOnly))
+	if !updatesOnly {
+		select { // the seed
+		case <-ch:
+		case <-time.After(convergeBudget):
+			return run, fmt.Errorf("no seed value from Value.Pull")
+		}
 	}
 	next := int64(1)
 	var maxWrite time.Duration
 	for round := 0; round < rounds; round++ {
-		n := r.Range(1, burst)
+		n := burstSize(r, burst)
 		var last int64
 		for i := 0; i < n; i++ {
 			var res proto.Message
@@ -324,12 +344,19 @@ func runValueLossy(r *vcoq.Rand, rounds, burst int) (valRun, error) {
 	return run, nil
 }
 
-func runValueBackpressure(n int) (valRun, error) {
-	run := valRun{bp: true, converged: true}
+func runValueBackpressure(n int, updatesOnly bool) (valRun, error) {
+	run := valRun{bp: true, converged: true, updatesOnly: updatesOnly}
 	v := resource.NewValue(resource.WithInitialValue(tok(0)))
 	ctx, cancel := context.WithCancel(context.Background())
 	defer cancel()
-	ch := v.Pull(ctx, resource.WithBackpressure(true), resource.WithUpdatesOnly(true))
+	ch := v.Pull(ctx, resource.WithBackpressure(true), resource.WithUpdatesOnly(updatesOnly))
+	if !updatesOnly {
+		select { // the seed
+		case <-ch:
+		case <-time.After(convergeBudget):
+			return run, fmt.Errorf("no seed value from Value.Pull")
+		}
+	}
 	var mu sync.Mutex
 	var got []int64
 	done := make(chan struct{})
@@ -342,9 +369,13 @@ func runValueBackpressure(n int) (valRun, error) {
 		}
 	}()
 	for i := 1; i <= n; i++ {
-		res, err := v.Set(tok(int64(i)))
-		if err != nil {
-			return run, fmt.Errorf("Value.Set failed: %v", err)
+		var res proto.Message
+		tk := tok(int64(i))
+		_, err, blocked := timed(func() error { var e error; res, e = v.Set(tk); return e })
+		if blocked || err != nil {
+			run.sent = append(run.sent, int64(i))
+			run.converged = false
+			break
 		}
 		run.sent = append(run.sent, *canonValue(res))
 	}
@@ -436,28 +467,346 @@ func runTimeout() (errored bool, ms int64) {
 	}
 }
 
+// ---- several subscribers on one resource ----
+//
+// minibus.Bus hands ONE event object to every listener.  A stalled lossy subscriber L (its merge
+// stage has pending changes and merges every later event into them) must not disturb a prompt
+// backpressured subscriber B on the same collection: B's stream must be the exact committed edit
+// script (one event per write, kinds, per-id old/new chain), whichever of the two registered
+// first; L's fold, once drained, must equal the final List.  B keeps the event pointers and they
+// are read only after L has drained, i.e. after every merge that could have touched them.
+func runMultiColl(r *vcoq.Rand, lossyFirst bool, nids int64, updatesOnly bool) (b, l collRun, err error) {
+	order := "backpressured subscriber registered first, stalled lossy one second"
+	if lossyFirst {
+		order = "stalled lossy subscriber registered first, prompt backpressured one second"
+	}
+	b = collRun{bp: true, converged: true, updatesOnly: updatesOnly, scenario: order + "; this is the backpressured subscriber"}
+	l = collRun{converged: true, updatesOnly: updatesOnly, scenario: order + "; this is the lossy subscriber (drained after all writes)"}
+	c := resource.NewCollection()
+	ctx, cancel := context.WithCancel(context.Background())
+	defer cancel()
+	var chL, chB <-chan *resource.CollectionChange
+	if lossyFirst {
+		chL = c.Pull(ctx, resource.WithUpdatesOnly(updatesOnly))
+		chB = c.Pull(ctx, resource.WithBackpressure(true), resource.WithUpdatesOnly(updatesOnly))
+	} else {
+		chB = c.Pull(ctx, resource.WithBackpressure(true), resource.WithUpdatesOnly(updatesOnly))
+		chL = c.Pull(ctx, resource.WithUpdatesOnly(updatesOnly))
+	}
+	var mu sync.Mutex
+	var gotB []*resource.CollectionChange
+	done := make(chan struct{})
+	go func() {
+		defer close(done)
+		for e := range chB {
+			mu.Lock()
+			gotB = append(gotB, e)
+			mu.Unlock()
+		}
+	}()
+	// writes: id 0 goes through add, update, update, remove, re-add, update; every other id through
+	// add, update, update; then random valid writes
+	s := newSState()
+	type wr struct {
+		id int64
+		w  byte
+	}
+	plan := []wr{{0, 'a'}, {0, 'u'}, {0, 'u'}, {0, 'd'}, {0, 'a'}, {0, 'u'}}
+	for id := int64(1); id < nids; id++ {
+		plan = append(plan, wr{id, 'a'}, wr{id, 'u'}, wr{id, 'u'})
+	}
+	// interleave the per-id plans a little: rotate by a random amount per id boundary is not valid
+	// (order within an id matters), so shuffle by merging the per-id queues randomly
+	queues := map[int64][]wr{}
+	for _, w := range plan {
+		queues[w.id] = append(queues[w.id], w)
+	}
+	var maxWrite time.Duration
+	committed := map[int64]int64{}
+	write := func(ev cchange, dt time.Duration, werr error) bool {
+		if werr == errBlocked {
+			b.sent, l.sent = append(b.sent, ev), append(l.sent, ev)
+			b.converged, l.converged, l.slow = false, false, true
+			return false
+		}
+		if werr != nil {
+			err = fmt.Errorf("collection write failed: %v", werr)
+			return false
+		}
+		b.sent, l.sent = append(b.sent, ev), append(l.sent, ev)
+		foldGo(committed, ev)
+		if dt > maxWrite {
+			maxWrite = dt
+		}
+		return true
+	}
+	ok := true
+	for ok && len(queues) > 0 {
+		ids := make([]int64, 0, len(queues))
+		for id := int64(0); id < nids; id++ {
+			if len(queues[id]) > 0 {
+				ids = append(ids, id)
+			}
+		}
+		if len(ids) == 0 {
+			break
+		}
+		id := ids[r.Intn(len(ids))]
+		w := queues[id][0]
+		queues[id] = queues[id][1:]
+		ok = write(collWriteAt(c, s, w.id, w.w))
+	}
+	for i := int64(0); ok && i < 2*nids; i++ {
+		ok = write(collWrite(c, s, r, nids))
+	}
+	if err != nil {
+		return
+	}
+	n := len(b.sent)
+	if ok {
+		deadline := time.Now().Add(convergeBudget)
+		for {
+			mu.Lock()
+			k := len(gotB)
+			mu.Unlock()
+			if k >= n {
+				break
+			}
+			if time.Now().After(deadline) {
+				b.converged = false
+				break
+			}
+			time.Sleep(100 * time.Microsecond)
+		}
+		// now drain L: read until its fold is the committed view, then a quiet period
+		seen := map[int64]int64{}
+		deadlineT := time.NewTimer(convergeBudget)
+	drain:
+		for {
+			for !sameView(committed, seen) {
+				select {
+				case e, okc := <-chL:
+					if !okc {
+						l.converged = false
+						break drain
+					}
+					cc := canonAPI(e)
+					l.got = append(l.got, cc)
+					foldGo(seen, cc)
+				case <-deadlineT.C:
+					l.converged = false
+					break drain
+				}
+			}
+			t := time.NewTimer(quiet)
+			select {
+			case e, okc := <-chL:
+				t.Stop()
+				if okc {
+					cc := canonAPI(e)
+					l.got = append(l.got, cc)
+					foldGo(seen, cc)
+					continue
+				}
+			case <-t.C:
+			}
+			break
+		}
+		deadlineT.Stop()
+		// the final List must be the committed view (and hence L's fold)
+		vals := map[int64]int{}
+		for _, m := range c.List() {
+			vals[*canonValue(m)]++
+		}
+		for _, v := range committed {
+			vals[v]--
+		}
+		for _, k := range vals {
+			if k != 0 {
+				l.converged = false
+			}
+		}
+	}
+	l.slow = l.slow || maxWrite > writeBudget
+	cancel()
+	<-done
+	for _, e := range gotB {
+		b.got = append(b.got, canonAPI(e))
+	}
+	return
+}
+
+func runMultiValue(lossyFirst bool, n int, updatesOnly bool) (b, l valRun, err error) {
+	order := "backpressured subscriber registered first, stalled lossy one second"
+	if lossyFirst {
+		order = "stalled lossy subscriber registered first, prompt backpressured one second"
+	}
+	b = valRun{bp: true, converged: true, updatesOnly: true, scenario: order + "; this is the backpressured subscriber"}
+	l = valRun{converged: true, updatesOnly: updatesOnly, scenario: order + "; this is the lossy subscriber (drained after all writes)"}
+	v := resource.NewValue(resource.WithInitialValue(tok(0)))
+	ctx, cancel := context.WithCancel(context.Background())
+	defer cancel()
+	var chL, chB <-chan *resource.ValueChange
+	if lossyFirst {
+		chL = v.Pull(ctx, resource.WithUpdatesOnly(updatesOnly))
+		chB = v.Pull(ctx, resource.WithBackpressure(true), resource.WithUpdatesOnly(true))
+	} else {
+		chB = v.Pull(ctx, resource.WithBackpressure(true), resource.WithUpdatesOnly(true))
+		chL = v.Pull(ctx, resource.WithUpdatesOnly(updatesOnly))
+	}
+	if !updatesOnly {
+		select { // L's seed
+		case <-chL:
+		case <-time.After(convergeBudget):
+			return b, l, fmt.Errorf("no seed value from Value.Pull")
+		}
+	}
+	var mu sync.Mutex
+	var gotB []*resource.ValueChange
+	done := make(chan struct{})
+	go func() {
+		defer close(done)
+		for e := range chB {
+			mu.Lock()
+			gotB = append(gotB, e)
+			mu.Unlock()
+		}
+	}()
+	var maxWrite time.Duration
+	var last int64
+	ok := true
+	for i := 1; i <= n; i++ {
+		var res proto.Message
+		tk := tok(int64(i))
+		dt, werr, blocked := timed(func() error { var e error; res, e = v.Set(tk); return e })
+		if blocked || werr != nil {
+			b.sent, l.sent = append(b.sent, int64(i)), append(l.sent, int64(i))
+			b.converged, l.converged, l.slow = false, false, true
+			ok = false
+			break
+		}
+		last = *canonValue(res)
+		b.sent, l.sent = append(b.sent, last), append(l.sent, last)
+		if dt > maxWrite {
+			maxWrite = dt
+		}
+	}
+	if ok {
+		deadline := time.Now().Add(convergeBudget)
+		for {
+			mu.Lock()
+			k := len(gotB)
+			mu.Unlock()
+			if k >= n {
+				break
+			}
+			if time.Now().After(deadline) {
+				b.converged = false
+				break
+			}
+			time.Sleep(100 * time.Microsecond)
+		}
+		deadlineT := time.NewTimer(convergeBudget)
+		for len(l.got) == 0 || l.got[len(l.got)-1] != last {
+			select {
+			case e, okc := <-chL:
+				if !okc {
+					l.converged = false
+				} else {
+					l.got = append(l.got, *canonValue(e.Value))
+					continue
+				}
+			case <-deadlineT.C:
+				l.converged = false
+			}
+			break
+		}
+		deadlineT.Stop()
+	}
+	l.slow = l.slow || maxWrite > writeBudget
+	cancel()
+	<-done
+	for _, e := range gotB {
+		b.got = append(b.got, *canonValue(e.Value))
+	}
+	return
+}
+
+func collCase(kind string, run collRun) vcoq.Case {
+	tags := []string{"api:" + kind}
+	if run.updatesOnly {
+		tags = append(tags, "api:updates-only")
+	}
+	if len(run.got) < len(run.sent) {
+		tags = append(tags, "api:events-merged")
+	}
+	js := map[string]any{"kind": "Collection.Pull", "backpressure": run.bp, "updates_only": run.updatesOnly,
+		"committed": jsChanges(run.sent), "received": jsChanges(run.got),
+		"converged": run.converged, "write_over_budget": run.slow}
+	if run.scenario != "" {
+		js["subscribers"] = run.scenario
+	}
+	return vcoq.Case{
+		Coq:        fmt.Sprintf("KApiColl %s %s %s %s %s", blit(run.bp), coqChanges(run.sent), coqChanges(run.got), blit(run.converged), blit(run.slow)),
+		JSON:       js,
+		Key:        fmt.Sprintf("api:%s:%v:%v:%d:%d", kind, run.bp, run.updatesOnly, len(run.sent), len(run.got)),
+		NonTrivial: len(run.sent) >= 2,
+		Tags:       tags,
+	}
+}
+
+func valCase(kind string, run valRun) vcoq.Case {
+	tags := []string{"api:" + kind}
+	if run.updatesOnly {
+		tags = append(tags, "api:updates-only")
+	}
+	if len(run.got) < len(run.sent) {
+		tags = append(tags, "api:values-dropped")
+	}
+	js := map[string]any{"kind": "Value.Pull", "backpressure": run.bp, "updates_only": run.updatesOnly,
+		"written": run.sent, "received": run.got, "converged": run.converged, "write_over_budget": run.slow}
+	if run.scenario != "" {
+		js["subscribers"] = run.scenario
+	}
+	return vcoq.Case{
+		Coq:        fmt.Sprintf("KApiValue %s %s %s %s %s", blit(run.bp), listZ(run.sent), listZ(run.got), blit(run.converged), blit(run.slow)),
+		JSON:       js,
+		Key:        fmt.Sprintf("api:%s:%v:%v:%d:%d", kind, run.bp, run.updatesOnly, len(run.sent), len(run.got)),
+		NonTrivial: len(run.sent) >= 2,
+		Tags:       tags,
+	}
+}
+
 func genAPI(o *vcoq.Out, r *vcoq.Rand, thorough bool) error {
-	nl, nb := 40, 12
+	nl, nb, nm := 40, 12, 12
 	if thorough {
-		nl, nb = 600, 150
+		nl, nb, nm = 600, 150, 200
 	}
 	// runs are independent; execute them concurrently (they mostly wait), generate inputs serially
 	type job struct {
-		kind string
-		seed uint64
-		a, b int
-		ids  int64
+		kind        string
+		seed        uint64
+		a, b        int
+		ids         int64
+		updatesOnly bool
+		lossyFirst  bool
 	}
 	var jobs []job
 	for i := 0; i < nl; i++ {
-		jobs = append(jobs, job{"coll-lossy", r.U64(), r.Range(1, 6), []int{3, 8, 30}[r.Intn(3)], int64(r.Range(1, 4))})
-		jobs = append(jobs, job{"value-lossy", r.U64(), r.Range(1, 6), []int{3, 8, 30}[r.Intn(3)], 0})
+		uo := i%2 == 1 // every scenario with and without WithUpdatesOnly(true)
+		jobs = append(jobs, job{"coll-lossy", r.U64(), r.Range(1, 6), []int{3, 8, 30}[r.Intn(3)], int64(r.Range(1, 4)), uo, false})
+		jobs = append(jobs, job{"value-lossy", r.U64(), r.Range(1, 6), []int{3, 8, 30}[r.Intn(3)], 0, uo, false})
 	}
 	for i := 0; i < nb; i++ {
-		jobs = append(jobs, job{"coll-bp", r.U64(), r.Range(1, 60), 0, int64(r.Range(1, 4))})
-		jobs = append(jobs, job{"value-bp", r.U64(), r.Range(1, 60), 0, 0})
+		uo := i%2 == 1
+		jobs = append(jobs, job{"coll-bp", r.U64(), r.Range(1, 60), 0, int64(r.Range(1, 4)), uo, false})
+		jobs = append(jobs, job{"value-bp", r.U64(), r.Range(1, 60), 0, 0, uo, false})
 	}
-	cases := make([]*vcoq.Case, len(jobs))
+	for i := 0; i < nm; i++ {
+		jobs = append(jobs, job{"multi-coll", r.U64(), 0, 0, int64(r.Range(1, 3)), i%4 >= 2, i%2 == 0})
+		jobs = append(jobs, job{"multi-value", r.U64(), r.Range(3, 20), 0, 0, i%4 >= 2, i%2 == 0})
+	}
+	cases := make([][]vcoq.Case, len(jobs))
 	errs := make([]error, len(jobs))
 	trouble.Store(0)
 	parallel(len(jobs), func(i int) {
@@ -465,81 +814,64 @@ func genAPI(o *vcoq.Out, r *vcoq.Rand, thorough bool) error {
 		if tooMuchTrouble() {
 			return
 		}
-		switch j.kind {
-		case "coll-lossy", "coll-bp":
-			var run collRun
+		bad := false
+		// a wall-clock observation that fails is measured a second time before it is
+		// reported: a blocked writer repeats, a scheduling hiccup of the host does not
+		for attempt := 0; attempt < 2; attempt++ {
+			var cs []vcoq.Case
 			var err error
-			// a wall-clock observation that fails is measured a second time before it is
-			// reported: a blocked writer repeats, a scheduling hiccup of the host does not
-			for attempt := 0; attempt < 2; attempt++ {
-				if j.kind == "coll-lossy" {
-					run, err = runCollLossy(vcoq.NewRand(j.seed), j.a, j.b, j.ids)
-				} else {
-					run, err = runCollBackpressure(vcoq.NewRand(j.seed), j.a, j.ids)
-				}
-				if err != nil || (run.converged && !run.slow) {
-					break
-				}
+			bad = false
+			switch j.kind {
+			case "coll-lossy":
+				var run collRun
+				run, err = runCollLossy(vcoq.NewRand(j.seed), j.a, j.b, j.ids, j.updatesOnly)
+				bad = !run.converged || run.slow
+				cs = []vcoq.Case{collCase(j.kind, run)}
+			case "coll-bp":
+				var run collRun
+				run, err = runCollBackpressure(vcoq.NewRand(j.seed), j.a, j.ids, j.updatesOnly)
+				bad = !run.converged
+				cs = []vcoq.Case{collCase(j.kind, run)}
+			case "value-lossy":
+				var run valRun
+				run, err = runValueLossy(vcoq.NewRand(j.seed), j.a, j.b, j.updatesOnly)
+				bad = !run.converged || run.slow
+				cs = []vcoq.Case{valCase(j.kind, run)}
+			case "value-bp":
+				var run valRun
+				run, err = runValueBackpressure(j.a, j.updatesOnly)
+				bad = !run.converged
+				cs = []vcoq.Case{valCase(j.kind, run)}
+			case "multi-coll":
+				var b, l collRun
+				b, l, err = runMultiColl(vcoq.NewRand(j.seed), j.lossyFirst, j.ids, j.updatesOnly)
+				bad = !b.converged || !l.converged || l.slow
+				cs = []vcoq.Case{collCase("multi-coll-bp", b), collCase("multi-coll-lossy", l)}
+			case "multi-value":
+				var b, l valRun
+				b, l, err = runMultiValue(j.lossyFirst, j.a, j.updatesOnly)
+				bad = !b.converged || !l.converged || l.slow
+				cs = []vcoq.Case{valCase("multi-value-bp", b), valCase("multi-value-lossy", l)}
 			}
 			if err != nil {
 				errs[i] = err
 				return
 			}
-			if !run.converged || run.slow {
-				trouble.Add(1)
-			}
-			tags := []string{"api:" + j.kind}
-			if len(run.got) < len(run.sent) {
-				tags = append(tags, "api:events-merged")
-			}
-			cases[i] = &vcoq.Case{
-				Coq: fmt.Sprintf("KApiColl %s %s %s %s %s", blit(run.bp), coqChanges(run.sent), coqChanges(run.got), blit(run.converged), blit(run.slow)),
-				JSON: map[string]any{"kind": "Collection.Pull", "backpressure": run.bp, "committed": jsChanges(run.sent), "received": jsChanges(run.got),
-					"converged": run.converged, "write_over_budget": run.slow},
-				Key:        fmt.Sprintf("api:%s:%d:%d", j.kind, len(run.sent), len(run.got)),
-				NonTrivial: len(run.sent) >= 2,
-				Tags:       tags,
-			}
-		default:
-			var run valRun
-			var err error
-			for attempt := 0; attempt < 2; attempt++ {
-				if j.kind == "value-lossy" {
-					run, err = runValueLossy(vcoq.NewRand(j.seed), j.a, j.b)
-				} else {
-					run, err = runValueBackpressure(j.a)
-				}
-				if err != nil || (run.converged && !run.slow) {
-					break
-				}
-			}
-			if err != nil {
-				errs[i] = err
-				return
-			}
-			if !run.converged || run.slow {
-				trouble.Add(1)
-			}
-			tags := []string{"api:" + j.kind}
-			if len(run.got) < len(run.sent) {
-				tags = append(tags, "api:values-dropped")
-			}
-			cases[i] = &vcoq.Case{
-				Coq: fmt.Sprintf("KApiValue %s %s %s %s %s", blit(run.bp), listZ(run.sent), listZ(run.got), blit(run.converged), blit(run.slow)),
-				JSON: map[string]any{"kind": "Value.Pull", "backpressure": run.bp, "written": run.sent, "received": run.got,
-					"converged": run.converged, "write_over_budget": run.slow},
-				Key:        fmt.Sprintf("api:%s:%d:%d", j.kind, len(run.sent), len(run.got)),
-				NonTrivial: len(run.sent) >= 2,
-				Tags:       tags,
+			cases[i] = cs
+			if !bad {
+				break
 			}
 		}
+		if bad {
+			trouble.Add(1)
+		}
 	})
-	for i, c := range cases {
+	for i, cs := range cases {
 		if errs[i] != nil {
 			return errs[i]
 		}
-		if c != nil {
-			o.Add(*c)
+		for _, c := range cs {
+			o.Add(c)
 		}
 	}
 	for _, useValue := range []bool{false, true} {
